@@ -62,7 +62,7 @@ def _scan(files, cov):
 
 def c15(ck, tier, seed):
     ck.cov["rule"] = (
-        "V: (1) round trips: for BDD, BCDD, ZBDD: all 256 three-variable functions alive under each of the 6 orders "
+        "V: (1) round trips: for BDD, BCDD, ZBDD (and MTBDD<i64>, random diagrams only): all 256 three-variable functions alive under each of the 6 orders "
         "(order set before or after building), 10 (quick) / 120 (thorough) sampled root multisets of 0..60 handles per order; "
         "36 / 400 random diagrams over 0..10 variables with unused variables and random orders, 3-4 root sets each; every "
         "export under sampled settings ASCII|binary x 2.0|3.0 x strict|relaxed x diagram name x root names (none, plain, empty, "
@@ -85,6 +85,11 @@ def c15(ck, tier, seed):
             res = vlib.run_driver(binary, drv, {"kind": k, "seed": seed * 11 + i, "tier": tier}, od)
             files += ck.add_driver(res)
             cmds.append(" ".join(map(str, res["cmd"])))
+    # MTBDD (i64 terminals): ASCII round trips (binary mode and a complement function do not exist for this kind)
+    od = os.path.join(ck.outdir, "dddmp-roundtrip-mtbdd")
+    res = vlib.run_driver(binary, "dddmp-roundtrip", {"kind": "mtbdd", "seed": seed * 11 + 5, "tier": tier}, od)
+    files += ck.add_driver(res)
+    cmds.append(" ".join(map(str, res["cmd"])))
     _scan(files, ck.cov)
     # samples: an export event and an accepted mutated file
     for fn in files:
@@ -97,8 +102,13 @@ def c15(ck, tier, seed):
                     ev.pop("snap", None)
                     ck.sample(ev)
                     break
-    results = vlib.validate("TraceDddmp", files, ["C15"])
+    results = vlib.validate("TraceDddmp", files, ["C15"], jobs=min(vlib.JOBS, 8))
     ck.add_validation(results, driver_cmd=cmds)
+    # measured, not estimated: files with >= 2 nodes that round-tripped in both managers +
+    # mutated files the importer accepted (ASCII: judged by FileSem; binary: structure and leaks)
+    ck.cov["distinct_nontrivial"] = (ck.cov["exports"]["round_tripped_with_2plus_nodes"]
+                                     + ck.cov["mutations"]["accepted_ascii_judged_by_FileSem"]
+                                     + ck.cov["mutations"]["accepted_binary_structural_only"])
     ck.assumptions += [
         "denotation of an exported handle = DDSem!SemMap of its logged sub-graph; of an imported handle = eval on all "
         "assignments (<= 10 variables) and SemMap of its sub-graph",
@@ -109,7 +119,8 @@ def c15(ck, tier, seed):
         "decoder of the byte codec); valid binary files are judged by the round trip",
         "terminal descriptions other than T/F (BDD, BCDD) and E/B (ZBDD) in mutated files are left open",
         "a 2.0 file cannot carry the numbers of variables outside the support: their names must survive as a set",
-        "MTBDD round trips and TDD export are not exercised by this check",
+        "MTBDD<i64>: 40 (quick) / 300 (thorough) random diagrams over 0..8 variables with number, +-infinity and NaN terminals, "
+        "ASCII round trips only; terminals with |value| >= 10^9 are left open; TDD export is not exercised by this check",
     ]
 
 
